@@ -36,6 +36,7 @@ FilterLx == <<
    Cmp("==", RelA, Lit(JInt(1))), Cmp("!=", RelA, Lit(JStr(cA))), Cmp("<", RelA, Lit(JInt(100))), Cmp("<=", Lit(JInt(1)), RelB),
    Cmp(">", RelA, RelB), Cmp(">=", AbsA, ERel(<<>>)), Cmp("==", RelA, Lit(JNull)), Cmp("==", RelA, Lit(JBool(TRUE))), Cmp("!=", RelA, Lit(JBool(FALSE))),
    Cmp("==", ERel(<<N1(cA), I1(0)>>), Lit(F(15, -1))), Cmp("==", ERel(<<N1(nSpace), I1(-1), N1(cB)>>), Lit(JInt(100))),
+   Cmp("==", RelA, Lit(JInt(230))), Cmp("==", RelA, Lit(F(3, -1))), Cmp(">=", RelA, Lit(JInt(230))),
    Cmp("==", RelA, Lit(JInt(0))), Cmp("<", RelA, Lit(JInt(-1))), Cmp("==", RelA, Lit(F(1, 2))), Cmp("==", RelA, Lit(JStr(nSpace))), Cmp("==", RelA, Lit(JStr(nEmpty))),
    Cmp("==", EFn("length", <<RelA>>), Lit(JInt(1))), Cmp(">", EFn("count", <<ERel(<<Child(<<SWild>>)>>)>>), Lit(JInt(1))),
    Cmp("==", EFn("value", <<ERel(<<Desc(<<SName(cA)>>)>>)>>), Lit(JInt(1))), Cmp("==", EFn("length", <<Lit(JStr(nAB))>>), Lit(JInt(2))),
@@ -110,6 +111,7 @@ ProbeDocs == <<
        <<JArr(<<F(15, -1), JInt(1), JObj(<<cA, cB>>, <<JInt(1), JInt(100)>>)>>), JArr(<<JObj(<<cB>>, <<JInt(100)>>)>>),
          JInt(1), JStr(cA), JObj(<<cA>>, <<JInt(1)>>), JNull>>),
   JArr(<<JObj(<<cA, cB>>, <<JInt(1), JInt(1)>>), JObj(<<cA>>, <<JStr(cA)>>), JObj(<<cA, cB>>, <<JInt(100), JStr(nAB)>>),
-         JArr(<<JInt(0), JInt(1), JInt(2)>>), JObj(<<cB>>, <<JBool(TRUE)>>), JObj(<<cA>>, <<JNull>>), JObj(<<cA>>, <<F(1, 2)>>), JInt(1)>>),
+         JArr(<<JInt(0), JInt(1), JInt(2)>>), JObj(<<cB>>, <<JBool(TRUE)>>), JObj(<<cA>>, <<JNull>>), JObj(<<cA>>, <<F(1, 2)>>), JInt(1),
+         JObj(<<cA>>, <<JInt(230)>>), JObj(<<cA>>, <<F(3, -1)>>), JObj(<<cA>>, <<F(23, 1)>>)>>),
   JObj(<<nEmpty, nDigit, nUnder, cA>>, <<JInt(1), JArr(<<JInt(5)>>), JObj(<<cA>>, <<JObj(<<cA>>, <<JInt(1)>>)>>), JObj(<<cA, cB>>, <<JStr(nSpace), JStr(nEmpty)>>)>>) >>
 =============================================================================
